@@ -79,8 +79,8 @@ GetSemaphore(s)        == Ret(s, s.sem)
 GetSemaphoreMask(s)    == Ret(s, s.msk)
 IsSemaphoreSignaled(s) == Ret(s, s.sig)
 
-\* Apbp::Reset -> Impl::Reset + DataChannel::Reset : disable_interrupt is NOT reset (as the code has it)
-Reset(s) == Ret([Fresh EXCEPT !.dis = s.dis], 0)
+\* Apbp::Reset -> Impl::Reset + DataChannel::Reset (disable_interrupt is reset too since the fix 2ec73fc in /repo)
+Reset(s) == Ret(Fresh, 0)
 
 -----------------------------------------------------------------------------
 (* Property layer for one object (C14): what one call must do from a state  *)
